@@ -14,6 +14,7 @@ EXPLANATION = (
     "SK-MATCHFN (bash: the prefix filter appends exactly the candidates matching `${prefix}*`, with no further condition), "
     "SIBLINGS (zsh, fish, pwsh: the same exit in their within-word matchers carries the same two guards -- recognised by per-shell patterns on the template text, an agreement check between sibling implementations, not a parse). "
     "NOT decided: the resulting COMPREPLY for concrete value sets; command-output candidates inside a word (bash's candidate loop has the same early exit without a mode guard: advisory); the non-bash matchers beyond the guard agreement."
+    " ISOCOV (shared with C01/C04/C09): two within-word value sets share printed tables only if every printed table agrees."
 )
 ASSUMPTIONS = [
     "bash semantics of [[ ]], continue N / break N as parsed by vlib/bashparse.py",
